@@ -532,6 +532,7 @@ pub fn check_printer_side(case: &SinkCase, mon: &mut Mon, ctx: &str) {
 }
 
 pub fn check_sink_case(case: &SinkCase, mon: &mut Mon) {
+    beat();
     let ctx = format!(
         "popts[{}] entry={} values={:?} plan={:?}",
         opts::describe_print(case.popts),
